@@ -457,8 +457,46 @@ def gen_guards():
     write("Guards.lean", text)
 
 
+def gen_fix():
+    src = strip_comments(open(os.path.join(REPO, "src/bundle_fix.rs")).read())
+    kinds = {"Visibility": "BevySync.Fix.Kind.visibility", "Transform": "BevySync.Fix.Kind.transform",
+             "PointLight": "BevySync.Fix.Kind.pointLight", "SpotLight": "BevySync.Fix.Kind.spotLight",
+             "DirectionalLight": "BevySync.Fix.Kind.dirLight"}
+    comps = {"GlobalTransform": "globalTransform", "InheritedVisibility": "inheritedVisibility", "ViewVisibility": "viewVisibility",
+             "CubemapFrusta": "cubemapFrusta", "CubemapVisibleEntities": "cubemapVisibleEntities", "Frustum": "frustum",
+             "CascadesFrusta": "cascadesFrusta", "CascadesVisibleEntities": "cascadesVisibleEntities", "Cascades": "cascades",
+             "CascadeShadowConfig": "cascadeShadowConfig"}
+    # the systems in the order of the add_systems tuple
+    m = re.search(r"add_systems\(\s*Update\s*,\s*\(([^)]*)\)", src)
+    if not m:
+        raise TranslateError("bundle_fix: add_systems tuple not found")
+    names = [x.strip() for x in m.group(1).split(",") if x.strip()]
+    rows = []
+    for n in names:
+        mm = re.search(r"fn\s+%s\s*\((.*?)\)\s*\{" % n, src, flags=re.S)
+        if not mm:
+            raise TranslateError("bundle_fix: fn %s not found" % n)
+        sig = mm.group(1)
+        added = re.findall(r"Added<(\w+)>", sig)
+        without = re.findall(r"Without<(\w+)>", sig)
+        body = fn_body(src, n)
+        inserts = [c for c in re.findall(r"\.insert\(\s*(\w+)::", body)]
+        if len(added) != 1 or added[0] not in kinds or not without or any(w not in comps for w in without) or any(i not in comps for i in inserts):
+            raise TranslateError("bundle_fix: %s has an unexpected shape (added=%r without=%r inserts=%r)" % (n, added, without, inserts))
+        rows.append((kinds[added[0]], inserts, without))
+    def q(x):
+        return "Fix.Companion.%s" % comps[x]
+    text = "import BevySyncModel.Slice.Fix\n/-! GENERATED by /verif/translate/translate.py from src/bundle_fix.rs — do not edit. -/\nnamespace BevySync\nnamespace Generated\n\n"
+    text += "/-- (kind watched by `Added<K>`, companions inserted, companions required absent by `Without<C>`) per system, in registration order -/\n"
+    text += "def fixSystems : List Fix.Sys :=\n  [%s]\n" % ",\n   ".join(
+        "⟨%s, [%s], [%s]⟩" % (k.replace("BevySync.", ""), ", ".join(q(i) for i in ins), ", ".join(q(w) for w in wo)) for k, ins, wo in rows)
+    text += FOOTER
+    write("Fix.lean", text)
+
+
 def main():
     try:
+        gen_fix()
         gen_guards()
         gen_sync()
         gen_struct("src/networking/assets/mesh_serde.rs", "MeshData", "meshData", "MeshData.lean")
